@@ -13,8 +13,10 @@ import (
 //
 //	RFC 1952 header exactly as compress/gzip writes it: 1f 8b 08 FLG MTIME(4) XFL OS,
 //	  [XLEN(2) Extra] [Name 00] [Comment 00]        (FEXTRA, FNAME, FCOMMENT; FHCRC verified if set)
-//	body: a 16-bit little-endian tag 3+8*n followed by the n payload bytes
-//	  (so that an empty payload is "03 00", the empty final DEFLATE block of the BGZF EOF marker)
+//	body: a 16-bit little-endian tag 1+8*n followed by the n payload bytes; the reader also
+//	  accepts tag 3+8*n, so that the literal BGZF EOF marker (body "03 00") is a valid empty
+//	  member while an empty member produced by the writer ("01 00") is distinguishable from it,
+//	  as it is with the real DEFLATE encoder
 //	trailer: CHECK(4) = 32-bit sum of the payload bytes, ISIZE(4) = n
 //
 // The reader consumes bytes only through the io.Reader/io.ByteReader it was
@@ -182,7 +184,7 @@ func registerGzip(m *Machine) {
 			out = append(out, b8(0))
 		}
 		n := len(st.payload)
-		tag := uint64(3 + 8*n)
+		tag := uint64(1 + 8*n) // the writer's members carry tag 1+8n; the literal EOF marker carries 3 (n=0)
 		if tag > 0xffff {
 			m.unsupported("mgzip: payload of %d bytes exceeds the model's body tag", n)
 		}
@@ -254,14 +256,16 @@ func registerGzip(m *Machine) {
 			if err.T != nil {
 				return noEOF(m, err)
 			}
-			n := int(m.concretize(c.ZExt(c.Concat(hi, lo), 64), 1<<16))
-			ex := make([]*sym.Term, n)
-			for i := range ex {
+			// the length is decided byte by byte, so that an altered length field costs
+			// one path per available byte rather than one per value
+			xlen := c.Concat(hi, lo)
+			var ex []*sym.Term
+			for i := 0; m.branch(c.ULT(c.BV(16, uint64(i)), xlen)); i++ {
 				b, err := readByte(m, src)
 				if err.T != nil {
 					return noEOF(m, err)
 				}
-				ex[i] = b
+				ex = append(ex, b)
 			}
 			m.fieldLoc(hl, "Extra").V = m.byteSliceFromTerms(ex)
 		}
@@ -342,18 +346,19 @@ func registerGzip(m *Machine) {
 				return fail(noEOF(m, err))
 			}
 			tag := c.Concat(hi, lo)
-			if !m.branch(c.Eq(c.Extract(tag, 2, 0), c.BV(3, 3))) {
+			if !m.branch(c.Or(c.Eq(c.Extract(tag, 2, 0), c.BV(3, 3)), c.Eq(c.Extract(tag, 2, 0), c.BV(3, 1)))) {
 				return fail(m.errNew("flate: corrupt input (model body tag)"))
 			}
-			n := int(m.concretize(c.ZExt(c.Extract(tag, 15, 3), 64), 1<<13))
-			data := make([]*sym.Term, n)
-			for i := range data {
+			nterm := c.Extract(tag, 15, 3)
+			var data []*sym.Term
+			for i := 0; m.branch(c.ULT(c.BV(13, uint64(i)), nterm)); i++ {
 				b, err := readByte(m, st.src)
 				if err.T != nil {
 					return fail(noEOF(m, err))
 				}
-				data[i] = b
+				data = append(data, b)
 			}
+			n := len(data)
 			var tr [8]*sym.Term
 			for i := range tr {
 				b, err := readByte(m, st.src)
@@ -382,8 +387,26 @@ func registerGzip(m *Machine) {
 			return Tuple{m.i64(0), Iface{}}
 		}
 		if st.pos >= len(st.data) {
-			// multistream: a further member would follow; the repository always feeds exactly one member
-			return Tuple{m.i64(0), m.ioErr("EOF")}
+			// multistream (the default, which the repository leaves on): the real reader
+			// tries to parse another member header from whatever follows the trailer
+			if e, ok := st.err.(Iface); ok && e.T != nil {
+				return Tuple{m.i64(0), e}
+			}
+			b, err := readByte(m, st.src)
+			if err.T != nil {
+				st.err = m.ioErr("EOF")
+				if !m.valueEq(err, m.ioErr("EOF")).IsTrue() {
+					st.err = err
+				}
+				return Tuple{m.i64(0), st.err}
+			}
+			// bytes after the member that are not a complete further member
+			if m.branch(c.Eq(b, c.BV(8, 0x1f))) {
+				st.err = m.ioErr("ErrUnexpectedEOF")
+			} else {
+				st.err = m.gzipErr("ErrHeader")
+			}
+			return Tuple{m.i64(0), st.err}
 		}
 		k := len(st.data) - st.pos
 		if k > plen {
